@@ -118,6 +118,61 @@ def panic_prefix_oracle(ops, text):
             return []
     return []
 
+def hint_panic_oracle(ops, text):
+    """an iterator's size_hint is advice: with no panic injected and no allocator refusal, `collect`, `extend` and the
+    consumption / drop of a `Splice` must not panic because a (small) size hint was wrong in either direction"""
+    if re.search(r"^!(panic_at|allocfail_at) [1-9]", text, re.M):
+        return []
+    def small(tok):
+        m = re.search(r"\]h(\d+|N)-(\d+|N)$", tok)
+        if not m:
+            return "]h" not in tok          # no hint given: the default, exact one
+        lo, hi = m.group(1), m.group(2)
+        return lo != "N" and int(lo) < (1 << 31) and (hi == "N" or int(hi) < (1 << 31))
+    out = []
+    splices = {}
+    for i, op in enumerate(ops):
+        a = op.args
+        if op.name == "splice" and len(a) == 5 and op.result == "ok":
+            splices[a[4]] = a[3]
+        tok = None
+        if op.name in ("collect", "extend") and len(a) >= 2:
+            tok = a[1]
+        elif op.name in ("drop", "next", "next_back", "nth", "nth_back", "count", "last") and a and a[0] in splices:
+            tok = splices[a[0]]
+        if tok is not None and op.result == "panic" and small(tok):
+            out.append(("hint-panic", i, "`%s` panicked although no callback panicked and nothing was refused: a wrong size_hint (%s) must not matter" % (op.line, tok)))
+    return out
+
+def lost_on_panic_oracle(ops, text):
+    """an operation that panics of its own accord (nothing injected: a rejected argument, a capacity overflow, a wrong
+    size_hint) loses nothing: every element the registers exposed before it is still exposed afterwards or was destroyed
+    by it (exactly-once ownership also across a panic the crate raises itself)"""
+    if re.search(r"^!(panic_at|allocfail_at) [1-9]", text, re.M):
+        return []
+    out = []
+    for i, op in enumerate(ops):
+        if i == 0 or op.result != "panic":
+            continue
+        prev = ops[i - 1]
+        if prev.result in (None, "abort", "abort-other", "hang"):
+            continue
+        before = set()
+        for reg, st in prev.S.items():
+            before |= set(x.split(":")[0] for x in st[2])
+        after = set()
+        for reg, st in op.S.items():
+            after |= set(x.split(":")[0] for x in st[2])
+        # registers that are not printed after the operation although they were before (borrowed by an iterator the
+        # operation created before it panicked) would look like losses: only compare when the same registers are shown
+        if set(prev.S.keys()) - set(op.S.keys()):
+            continue
+        destroyed = set(e.split()[1] for e in op.events if e.startswith("D "))
+        lost = before - after - destroyed
+        if lost:
+            out.append(("lost-on-panic", i, "`%s` panicked (nothing was injected) and elements %s are neither exposed by a register any more nor destroyed" % (op.line, sorted(lost, key=int))))
+    return out
+
 def iter_drop_oracle(ops, mops):
     """C10's last clause judged on the implementation's own trace: after `drop it` of a Drain or of a Splice with an honest
     replacement (no None, no hint) the vector is the untouched prefix, then the replacement, then the untouched suffix.
@@ -209,6 +264,11 @@ def argument_grid(mode):
     for cls in ("w4", "s16", "b1"):
         for label, pre in G.start_states(cls):
             vals = [0, 1, 2, 3, 4, 7, 8, 9, M - 1, M]
+            # indices whose BYTE offset wraps around the address space back onto a live element (index * size_of::<T>() mod 2^64):
+            # a bounds check done on pointers instead of on indices accepts them
+            wrap = (1 << 64) // SIZES[cls]
+            if SIZES[cls] > 1:
+                vals += [wrap, wrap + 1, wrap + 2, 2 * wrap + 1 if 2 * wrap + 1 <= M else wrap + 3, (1 << 63), (1 << 63) + 1]
             for v in vals:
                 for op in ("insert v0 %d 5", "remove v0 %d", "swap_remove v0 %d", "split_off v0 %d c1", "truncate v0 %d", "shrink_to v0 %d"):
                     out.append(G.case("arg-%s-%s-%d" % (cls, label, k), cls, mode, pre + [op % v, "push v0 9"])); k += 1
@@ -493,7 +553,7 @@ def clone_cases(tier, seed, mode):
                 for bk in range(0, 3):
                     steps = ["next it"] * f + ["next_back it"] * bk
                     for tail in (["drop it", "as_slice j", "next j", "next_back j", "drop j"], ["drop j", "next it", "as_slice it", "drop it"],
-                                 ["next j", "next it", "next_back j", "as_slice it", "as_slice j"]):
+                                 ["next j", "next it", "next_back j", "as_slice it", "as_slice j"], ["iter_views it", "iter_views j", "drop j", "iter_views it", "drop it"]):
                         out.append(G.case("cli-%s-%s-%d" % (cls, label, k), cls, mode, pre + ["into_iter v0 it"] + steps + ["clone_iter it j"] + tail)); k += 1
             # Clone::clone_from between two IntoIters: the target stepped from either end, sources shorter / longer than
             # what the target has left and than its capacity
@@ -886,11 +946,11 @@ PROPS = {
             "partial_missing": ["refinement to Vec semantics proved for every history over push, pop, insert, remove, swap_remove, truncate, clear, retain (any predicate), reserve, reserve_exact, shrink_to, shrink_to_fit (C01_refines_vec_partial); separately proved value-for-value: extend_from_slice, resize, resize_with (any generator) (C01Loops), From<&[T]> (C01_from_slice_partial), clone, extend/collect, dedup*, Drain, IntoIter, DrainFilter (any predicate); append, split_off, drain_vec, mini_vec![a, b, c], splice (any replacement iterator), extend_from_within, remove_item (any equality), mini_vec![e; n], clone_from; C01_histories_partial composes them over EVERY history of 25 operation kinds incl. the three borrowing iterators created, stepped and dropped; From<&str>, Cow, the Borrow/AsRef/Deref/Index views are tied to Vec and to the model by the correspondence only (views oracle)"]},
     "C02": {"modules": ["MiniVecProof.Props.C10Provided", "MiniVecProof.Props.C02", "MiniVecProof.Props.C02Histories", "MiniVecProof.Props.C02All", "MiniVecProof.Props.C02Splice", "MiniVecProof.Props.C10", "MiniVecProof.Props.C10IntoIter", "MiniVecProof.Props.C10DrainFilter"],
             "cases": lambda tier, seed: [(m, c + raw_natural_cases(m) + serde_error_cases(m)) for m, c in general(tier, seed, "C02")],
-            "owned_oracles": ["O ledger", "O view-mismatch", "X signal"], "owned_diffs": ["own", "crash"],
+            "owned_oracles": ["O ledger", "O view-mismatch", "X signal", "lost-on-panic"], "owned_diffs": ["own", "crash"],
             "partial_missing": ["exactly-once destruction and conservation proved for every completed history over the 12 operations of POp (incl. retain with any predicate) followed by Drop (C02_exactly_once_partial, C02_no_double_drop, C02_no_leak); for Drain and IntoIter dropped after any interleaving of steps: yielded front ++ destroyed ++ yielded back reversed = the selected range (specSteps_partition + C10_drain_partial / C10_into_iter_partial); DrainFilter: yielded ++ destroyed = accepted, vector = rejected (C10_drain_filter_partial); C02_histories_partial / C02_histories_into_iter_partial: EVERY completed history over the base operations, extend (any source), dedup / dedup_by / dedup_by_key (any relation), drain(range) with any steps then drop, drain_filter(pred) with any steps then drop, ended by dropping the vector or by into_iter() with any steps then drop: one destructor event per element of `dropped`, and dropped ++ everything yielded or returned is a rearrangement of the starting contents ++ everything handed in; C02_every_history_partial (Props/C02All, C02Splice): the same for EVERY completed history over all 25 operation kinds of HOp, by destructor events: the cloning operations (extend_from_slice, resize, extend_from_within: the clones are new elements handed to the vector), resize_with, remove_item and splice (create, any steps, drop: exactly the unyielded part of the range is destroyed; the temporary that collects the rest of the replacement is emptied before it is dropped) included; the multi-register operations and serde by correspondence + per-element ledger"]},
     "C03": {"modules": ["MiniVecProof.Props.C01", "MiniVecProof.Proofs.MemDrop", "MiniVecProof.Props.C09", "MiniVecProof.Props.C03World", "MiniVecProof.Props.C10World"],
-            "cases": lambda tier, seed: [(m, c + huge_cases(m) + raw_natural_cases(m) + extend_ref_cases(m) + lying_hint_cases(m) + grow_with_tail_cases(m) + mixed_alignment_cases(m)) for m, c in general(tier, seed, "C03", modes=("debug", "release"))],
-            "owned_oracles": ["O alloc", "O cap"], "owned_diffs": ["alloc", "ub", "crash"],
+            "cases": lambda tier, seed: [(m, c + huge_cases(m) + raw_natural_cases(m) + extend_ref_cases(m) + lying_hint_cases(m) + grow_with_tail_cases(m) + mixed_alignment_cases(m) + hostile_cases(tier, seed, m)) for m, c in general(tier, seed, "C03", modes=("debug", "release"))],
+            "owned_oracles": ["O alloc", "O cap", "X signal"], "owned_diffs": ["alloc", "ub", "crash"],
             "partial_missing": ["layout quoting proved for grow (every caller), Drop and IntoIter::drop; C03_world_all_histories: for EVERY finite sequence of protocol operations of the register machine on any number of registers (every constructor of Op: all four iterators alive across other operations, two-vector operations, serde, raw round trips, spare capacity, count) every register stays well formed and no step is an illegal access, a failed assertion or a hang (non-panicking callbacks); the theorem is about the model, tied to the code by the correspondence + checking allocator"]},
     "C04": {"modules": ["MiniVecProof.Props.C10Provided", "MiniVecProof.Props.C04", "MiniVecProof.Props.C04Drain", "MiniVecProof.Props.C04IntoIter", "MiniVecProof.Props.C04DrainFilter", "MiniVecProof.Props.C04Loops", "MiniVecProof.Props.C04Dedup", "MiniVecProof.Props.C04MacroRepeat", "MiniVecProof.Props.C04Splice", "MiniVecProof.Props.C04Histories", "MiniVecProof.Props.C04Serde", "MiniVecProof.Props.C04World", "MiniVecProof.Props.C01"],
             "cases": lambda tier, seed: [("debug", corpus("debug", "C04") + panic_sweep(tier, seed, "debug") + panic_prefix_cases("debug"))],
@@ -927,12 +987,12 @@ PROPS = {
         "modules": ["MiniVecProof.Props.C11"],
         "cases": lambda tier, seed: [("debug", corpus("debug", "C11") + argument_grid("debug")), ("release", argument_grid("release"))] if tier == "thorough"
                  else [("debug", corpus("debug", "C11") + argument_grid("debug")), ("release", boundary_grid("release"))],
-        "owned_oracles": ["accept-predicate", "rejected-unchanged", "X signal"],
+        "owned_oracles": ["accept-predicate", "rejected-unchanged", "lost-on-panic", "X signal"],
         "owned_diffs": ["panic", "result"],
     },
     "C12": {"modules": ["MiniVecProof.Props.C10Provided", "MiniVecProof.Props.C12", "MiniVecProof.Props.C04Loops", "MiniVecProof.Props.C12IntoIter", "MiniVecProof.Props.C12CloneFrom"],
             "cases": lambda tier, seed: [("debug", corpus("debug", "C12") + clone_cases(tier, seed, "debug") + clone_panic_cases("debug") + soak(tier, seed, "debug", "C12"))],
-            "owned_oracles": ["O ledger", "O alloc", "X signal", "O vec-mismatch"], "owned_diffs": ["own", "contents", "result", "alloc", "ub", "crash", "panic"],
+            "owned_oracles": ["O ledger", "O alloc", "X ", "= hang", "O vec-mismatch", "O view-mismatch"], "owned_diffs": ["own", "contents", "result", "alloc", "ub", "crash", "panic"],
             "partial_missing": ["proved: Clone for MiniVec returns a well-formed vector of value-equal clones in order with the source handle untouched, or stops in a sanctioned way (C12_clone_partial); IntoIter::as_slice (what IntoIter::clone copies) is exactly the unyielded elements (into_as_slice); IntoIter::clone after any steps builds a fresh vector of value-equal clones of exactly the unyielded elements with its own cursor, original untouched (C12_into_iter_clone_partial); clone_from (C12_clone_from_partial: self gets value-equal clones, its old elements destroyed once, source untouched; self untouched if cloning stops); independence under later mutation/drop in either order: correspondence with owning elements only (the model cannot share a block between two handles by construction)"]},
     "C14": {"modules": ["MiniVecProof.Props.C14"],
             "cases": lambda tier, seed: [("debug", corpus("debug", "C14") + raw_cases(tier, seed, "debug") + raw_after_ops(tier, "debug")), ("release", raw_cases(tier, seed, "release") + raw_after_ops(tier, "release"))],
@@ -940,7 +1000,7 @@ PROPS = {
     "C17": {"modules": ["MiniVecProof.Props.C17", "MiniVecProof.Props.C01Histories", "MiniVecProof.Props.C17RemoveItem", "MiniVecProof.Props.C10DrainFilter", "MiniVecProof.Props.C10Splice", "MiniVecProof.Props.C01Loops"],
             "cases": lambda tier, seed: [("debug", corpus("debug", "C17") + hostile_cases(tier, seed, "debug") + huge_hint_cases("debug") + extend_ref_cases("debug") + clone_glue_cases("debug") + lying_hint_cases("debug") + compare_prefix_cases("debug")),
                                          ("release", huge_hint_cases("release") + extend_ref_cases("release"))],
-            "owned_oracles": ["O ledger", "O alloc", "X signal"], "owned_diffs": ["own", "contents", "result", "alloc", "ub", "crash"],
+            "owned_oracles": ["O ledger", "O alloc", "X signal", "hint-panic", "lost-on-panic", "O vec-mismatch"], "owned_diffs": ["own", "contents", "result", "alloc", "ub", "crash"],
             "partial_missing": ["proved: retain under an ARBITRARY (stateful, inconsistent) non-panicking predicate keeps a sublist of live elements, destroys exactly the others once, no allocator traffic (C17_retain_partial, C17_live_distinct); dedup / dedup_by / dedup_by_key under an arbitrary equality script, predicate or key function (C17_dedup_partial); extend / collect with an arbitrary (non-fused) source iterator (C17_extend_partial, C17_collect_partial); clone under an arbitrary Clone (C12_clone_partial); drain_filter with ANY predicate (C10_drain_filter_partial), resize_with with ANY generator (C17_resize_with_partial); splice with ANY replacement iterator incl. non-fused (C10_splice_partial), remove_item with ANY equality script (C17_remove_item_partial); comparisons: scripted callbacks enumerated exhaustively up to length 4 (quick) / 6 (thorough) by the correspondence only"]},
     "C19": {"modules": ["MiniVecProof.Props.C19", "MiniVecProof.Props.C19Mem"],
             "cases": lambda tier, seed: [("debug", serde_cases(tier, seed, "debug")), ("release", serde_cases(tier, seed, "release"))] if tier == "thorough"
@@ -956,6 +1016,7 @@ PROPS = {
 import special as S
 for _p in ("C01", "C02", "C17"):
     PROPS[_p]["special"] = S.mutcb
+PROPS["C18"]["special"] = S.oom_unwind
 PROPS["C13"] = {"modules": ["MiniVecProof.Props.C13"], "special": S.c13,
                 "partial_missing": ["rustc's layout algorithm is modelled (sum of field sizes rounded to the largest alignment, niche if a field has one), not verified; validated by compile-time assertions over a family of element types"]}
 PROPS["C15"] = {"modules": ["MiniVecProof.Props.C15"], "special": S.c15,
@@ -1046,7 +1107,7 @@ def correspondence(pid, tier, seed, model_ok=True):
                         found.append((o.split()[1] if o.startswith("O ") else o.split()[0] + "-" + "-".join(o.split()[1:3]), i, o))
                     elif o.startswith("O "):
                         other_oracles[" ".join(o.split()[:2])] += 1
-            for kind, i, textv in T.orchestrator_oracles(ops, SIZES.get(cls, 4), {"a32": 32, "a16": 16}.get(cls, 8)) + panic_prefix_oracle(ops, text) + iter_drop_oracle(ops, T.parse(m) if m else []):
+            for kind, i, textv in T.orchestrator_oracles(ops, SIZES.get(cls, 4), {"a32": 32, "a16": 16}.get(cls, 8)) + panic_prefix_oracle(ops, text) + hint_panic_oracle(ops, text) + lost_on_panic_oracle(ops, text) + iter_drop_oracle(ops, T.parse(m) if m else []):
                 if kind in P.get("owned_oracles", []):
                     found.append((kind, i, textv))
                 else:
